@@ -419,7 +419,7 @@ def monitor_hist(c, o):
             if snap["gets"].get(d, -1) == len(content):
                 data = bytes.fromhex(snap["blobs"].get("sha256-" + d, ""))
                 if sha(data) != d:
-                    out.append(({"kind": "hist", "class": "size-ok-content-bad", "after": op["op"], "crash": op.get("crash") is not None},
+                    out.append(({"kind": "hist", "class": "size-ok-content-bad"},
                                 "after op %d (%s) Get reports blob %s.. with its stored size %d but the file hashes to %s.." % (i, op["op"], d[:8], len(content), sha(data)[:8])))
         # (2) a successful store makes the blob retrievable
         if op["op"] == "put" and res.get("kind") == "ok" and op["size"] > 0:
